@@ -26,6 +26,9 @@ use std::collections::BTreeMap;
 use std::path::Path;
 
 pub const CLOCK_FREE: &str = "{l}|{t}|{m}{n}";
+/// further clock-free patterns: what the file says is what the encoder gets (line breaks after `{n}`, the empty
+/// pattern, leading/trailing blanks, nested groups)
+pub const PATTERNS: [&str; 9] = ["{l}|{t}|{m}{n}\n", "{m}{n}{n}", "", "{m}\n", "  {l:<5} {m}{n}", "{h({l})}|{m}{n}", "{({l}|{t}):12.12}|{m}{n}", "{m}{n} ", "{m}{n}\r\n"];
 
 #[derive(Serialize, Deserialize, Debug, Clone, PartialEq)]
 pub enum Enc {
@@ -81,7 +84,7 @@ pub struct LC {
 fn enc_strategy() -> impl Strategy<Value = Enc> {
     prop_oneof![
         2 => Just(Enc::Omitted),
-        5 => (prop::bool::ANY, prop::option::weighted(0.8, Just(CLOCK_FREE.to_string()))).prop_map(|(kind_key, pattern)| Enc::Pattern { kind_key, pattern }),
+        5 => (prop::bool::ANY, prop::option::weighted(0.8, prop_oneof![3 => Just(CLOCK_FREE), 2 => prop::sample::select(PATTERNS.to_vec())])).prop_map(|(kind_key, pattern)| Enc::Pattern { kind_key, pattern: pattern.map(|p| p.to_string()) }),
         2 => Just(Enc::Json),
     ]
 }
@@ -469,7 +472,8 @@ fn predicted_file(lc: &LC, routing: &LCfg, a: &LApp, probes: &[(String, u8, Stri
         }
         for _ in 0..k {
             let line = match enc {
-                Enc::Pattern { pattern: Some(_), .. } => format!("{}|{}|{}", level, t, m),
+                Enc::Pattern { pattern: Some(p), .. } if p == CLOCK_FREE => format!("{}|{}|{}", level, t, m),
+                Enc::Pattern { pattern: Some(_), .. } => return None,
                 Enc::Omitted | Enc::Pattern { pattern: None, .. } => format!("{} {} - {}", level, t, m),
                 Enc::Json => {
                     let o = serde_json::json!({"level": level.to_string(), "message": m, "target": t, "thread": "main", "mdc": {}});
@@ -729,11 +733,19 @@ fn apply(doc: &mut DV, lc: &LC, m: &Mutant) -> Expect {
             &$v[pickv($v.len())]
         }};
     }
-    let junk = DV::Int(7);
+    // the value of an unknown key does not make it known: number, null, empty string, empty list, empty map
+    let junk = match (m.victim / 7) % 5 {
+        0 => DV::Int(7),
+        1 if m.format != Format::Toml => DV::Null,
+        2 => DV::s(""),
+        3 => DV::Seq(vec![]),
+        4 => DV::Map(vec![]),
+        _ => DV::Bool(false),
+    };
     match &m.mutation {
         Mutation::UnknownKey(site) => match site.as_str() {
             "doc" => {
-                doc.insert("frobnicate", junk);
+                doc.insert("frobnicate", junk.clone());
                 Expect::DocumentRejected
             }
             "root" => {
